@@ -434,6 +434,8 @@ class simplify_chained_calls(FuncADLNodeTransformer):
         if a.posonlyargs or a.kwonlyargs or a.vararg or a.kwarg or a.defaults:
             return None
         names = [p.arg for p in a.args]
+        if any(isinstance(x, ast.Starred) for x in call_node.args):
+            return None
         if len(call_node.args) > len(names):
             return None
         given = dict(zip(names, call_node.args))
